@@ -104,3 +104,13 @@ Proof.
   change (bytes_eqb fn_noverify fn_enforce) with false. change (bytes_eqb fn_noverify fn_noverify) with true.
   cbv iota. destruct (parse_json t); reflexivity.
 Qed.
+
+(* what an enforcing room version accepts: texts all of whose numbers pass the (repaired) check *)
+Theorem enforced_accepts v t ver :
+  enforces ver = true -> RendersText v t -> has_bad_number v = false ->
+  enforced ver t = Some (canon_print v).
+Proof.
+  unfold enforces, enforced. intros He Hr Hb.
+  destruct (canonical_check_of ver) as [f|]; [|discriminate].
+  rewrite He. unfold enforced_with. rewrite (parse_complete v t Hr), Hb. reflexivity.
+Qed.
